@@ -48,9 +48,16 @@ type lostLink struct {
 	FromRank int    `json:"from_rank"`
 	ToRank   int    `json:"to_rank"`
 	Late     bool   `json:"late"` // (deals only) delivered only after the receiver has left the deal phase, instead of never
-	From     string `json:"from,omitempty"`
-	To       string `json:"to,omitempty"`
-	Hits     int    `json:"transmissions_hit"`
+	// AllCopies: every copy of the sender's bundle addressed to the receiver - the direct one and
+	// the re-sends of the other nodes - stays on the wire for Delay (counted from the first copy);
+	// Delay lies between the configured kick-off grace period and the configured phase duration
+	AllCopies bool          `json:"all_copies,omitempty"`
+	Delay     time.Duration `json:"delay,omitempty"`
+	Grace     time.Duration `json:"configured_grace,omitempty"`
+	Phase     time.Duration `json:"configured_phase,omitempty"`
+	From      string        `json:"from,omitempty"`
+	To        string        `json:"to,omitempty"`
+	Hits      int           `json:"transmissions_hit"`
 }
 
 type rnode struct {
@@ -81,6 +88,7 @@ type bus struct {
 	loseToIdx uint32                     // share index of the receiver of the scripted faulty link
 	lateGate  chan struct{}              // closed when that receiver has sent its own response bundle (it left the deal phase)
 	lateCap   time.Duration              // upper bound of the wait for the gate
+	firstAt   time.Time                  // when the first copy of an AllCopies-delayed bundle was sent
 	recorded  map[string]*pdkg.DKGPacket // first response bundle sent by each node (for the replay witness)
 	indexOf   map[string]uint32          // DKG index of each node (replay witness)
 	stats     map[string]int
@@ -179,6 +187,20 @@ func (c *client) BroadcastDKG(ctx context.Context, p net.Peer, in *pdkg.DKGPacke
 		c.b.mu.Unlock()
 	}
 	c.b.observe(c.from, in)
+	if wait := c.b.delayAll(p.Address(), in); wait > 0 {
+		cp := proto.Clone(in).(*pdkg.DKGPacket)
+		c.b.mu.Lock()
+		c.b.inflight++
+		c.b.mu.Unlock()
+		c.b.wg.Add(1)
+		go func() {
+			defer c.b.wg.Done()
+			time.Sleep(wait)
+			c.b.done()
+			_, _ = c.b.deliverDKG(c.from, p, cp)
+		}()
+		return &pdkg.EmptyDKGResponse{}, nil
+	}
 	if gate, lost := c.b.faulty(c.from, p.Address(), in); lost {
 		return nil, errors.New("transmission lost")
 	} else if gate != nil {
@@ -212,13 +234,45 @@ func (c *client) BroadcastDKG(ctx context.Context, p net.Peer, in *pdkg.DKGPacke
 	return c.b.deliverDKG(c.from, p, in)
 }
 
+// delayAll: is this a copy (direct or re-sent by anybody) of the scripted sender's bundle on its
+// way to the scripted receiver? Then it stays on the wire until Delay after the first copy.
+func (b *bus) delayAll(to string, in *pdkg.DKGPacket) time.Duration {
+	b.mu.Lock()
+	defer b.mu.Unlock()
+	l := b.lose
+	if l == nil || !l.AllCopies || l.To != to {
+		return 0
+	}
+	switch l.Kind {
+	case "deal":
+		if d := in.GetDkg().GetDeal(); d == nil || d.GetDealerIndex() != b.loseIdx {
+			return 0
+		}
+	case "response":
+		if r := in.GetDkg().GetResponse(); r == nil || r.GetShareIndex() != b.loseIdx {
+			return 0
+		}
+	default:
+		return 0
+	}
+	if b.firstAt.IsZero() {
+		b.firstAt = time.Now()
+	}
+	l.Hits++
+	b.stats["delayed-within-phase/"+l.Kind]++
+	if w := time.Until(b.firstAt.Add(l.Delay)); w > time.Millisecond {
+		return w
+	}
+	return time.Millisecond
+}
+
 // faulty decides whether this transmission is the scripted lost / late one: the sender's OWN
 // bundle (its index is the sender's) on the scripted link; only the first such transmission.
 func (b *bus) faulty(from, to string, in *pdkg.DKGPacket) (chan struct{}, bool) {
 	b.mu.Lock()
 	defer b.mu.Unlock()
 	l := b.lose
-	if l == nil || l.From != from || l.To != to || l.Hits > 0 {
+	if l == nil || l.AllCopies || l.From != from || l.To != to || l.Hits > 0 {
 		return nil, false
 	}
 	switch l.Kind {
@@ -348,14 +402,15 @@ type scenario struct {
 	Sched     schedule      `json:"schedule"`
 	Phase     time.Duration `json:"phase"`
 	// resharing
-	Reshare     string   `json:"reshare"` // "" | "same" | "add" | "remove"
-	Thr2        int      `json:"threshold2"`
-	Sched2      schedule `json:"schedule2"`
-	ListPerm2   []int    `json:"list_perm2"`
-	BeaconID    string   `json:"beacon_id"`
-	Witness     string   `json:"witness,omitempty"`      // replay of a candidate finding instead of a regular run
-	WitnessOnly bool     `json:"witness_only,omitempty"` // replays a known finding that depends on real time; never reported as not completing
-	Scale       float64  `json:"time_scale"`             // factor applied to every real-time constant (phase already includes it)
+	Reshare     string        `json:"reshare"` // "" | "same" | "add" | "remove"
+	Thr2        int           `json:"threshold2"`
+	Sched2      schedule      `json:"schedule2"`
+	ListPerm2   []int         `json:"list_perm2"`
+	BeaconID    string        `json:"beacon_id"`
+	Witness     string        `json:"witness,omitempty"`      // replay of a candidate finding instead of a regular run
+	WitnessOnly bool          `json:"witness_only,omitempty"` // replays a known finding that depends on real time; never reported as not completing
+	Grace       time.Duration `json:"grace,omitempty"`        // KickoffGracePeriod of the nodes (default 800 ms), before scaling
+	Scale       float64       `json:"time_scale"`             // factor applied to every real-time constant (phase already includes it)
 }
 
 // nodeObs is what one node holds after a completed DKG.
@@ -404,6 +459,14 @@ func (w *world) d(x time.Duration) time.Duration {
 	return time.Duration(float64(x) * w.scale)
 }
 
+// grace is the (scaled) kick-off grace period the nodes are configured with.
+func (w *world) grace() time.Duration {
+	if w.sc.Grace > 0 {
+		return w.d(w.sc.Grace)
+	}
+	return w.d(800 * time.Millisecond)
+}
+
 func (w *world) addNode(rng *rand.Rand, i int) (*rnode, error) {
 	dir, err := os.MkdirTemp("", "zzv-dkgrun-")
 	if err != nil {
@@ -424,7 +487,7 @@ func (w *world) addNode(rng *rand.Rand, i int) (*rnode, error) {
 		return nil, err
 	}
 	out := util.NewFanOutChan[dkg.SharingOutput]()
-	conf := dkg.Config{Timeout: w.d(time.Minute), TimeBetweenDKGPhases: w.sc.Phase, KickoffGracePeriod: w.d(800 * time.Millisecond)}
+	conf := dkg.Config{Timeout: w.d(time.Minute), TimeBetweenDKGPhases: w.sc.Phase, KickoffGracePeriod: w.grace()}
 	n := &rnode{addr: addr, kp: kp, part: part, dir: dir, store: st}
 	n.proc = dkg.NewDKGProcess(st, ident{kp}, out, &client{w.bus, addr}, nil, conf, quietLogger().Named(fmt.Sprintf("S%s/%s", w.sc.Name[:2], addr[:2])))
 	n.done = make(chan doneEv, 8)
@@ -547,6 +610,11 @@ func (w *world) armLoss(members []*rnode, dealers []*rnode, dealerIdx map[string
 	}
 	cp := *l
 	cp.From, cp.To, cp.Hits = from.addr, to.addr, 0
+	if cp.AllCopies {
+		cp.Grace, cp.Phase = w.grace(), w.sc.Phase
+		cp.Delay = cp.Grace + (cp.Phase-cp.Grace)*2/5 // grace 1 s, phase 6 s: 3 s
+	}
+	w.bus.firstAt = time.Time{}
 	for i, n := range recv {
 		if n == to {
 			cp.ToRank = i
